@@ -888,14 +888,11 @@ def r15_counters_bounded_in_loop(run, F, part="/delta/", floor=3):
             continue
         for lp in [x for x in walk(b["hir"]) if x.get("k") == "Loop"]:
             inner_loops = [y for y in walk(lp) if y.get("k") == "Loop" and y is not lp]
-            for a in walk(lp):
-                if a.get("k") != "AssignOp" or a.get("op") not in ("Add", "AddAssign"):
-                    continue
+            for l, a in hirq.increments(lp):
                 if any(a is z for il in inner_loops for z in walk(il)):
                     continue          # belongs to the inner loop
-                l = hirq.unwrap_trivial(a["lhs"])
                 t = str(F.lib.types[l["t"]]) if l.get("t") is not None else "?"
-                if t not in ("u8", "u16", "i8", "i16") or l.get("k") != "Path":
+                if t not in ("u8", "u16", "i8", "i16"):
                     continue
                 n += 1
                 bounded = False
